@@ -46,7 +46,8 @@ def design_proof(ctx, thorough):
     import subprocess
     d = os.path.join(ctx.scratch, "proof")
     os.makedirs(d, exist_ok=True)
-    for f in ("GroupChainInd.tla", "GroupChainIndProof.tla", "GroupChainInd_apalache.tla"):
+    for f in ("GroupChainInd.tla", "GroupChainIndProof.tla", "GroupChainInd_apalache.tla",
+              "GroupChainCrashInd.tla", "GroupChainCrashIndProof.tla", "GroupChainCrashInd_apalache.tla"):
         shutil.copyfile(os.path.join(SPEC, f), os.path.join(d, f))
     out = {}
     try:
@@ -58,10 +59,19 @@ def design_proof(ctx, thorough):
     except Exception as e:   # noqa
         out["tlaps"] = "not run: %s" % e
         out["tlaps_proved"] = False
+    # the same at the level of records and mirror fields with a process death anywhere (one-batch writes)
+    try:
+        p = subprocess.run(["tlapm", "--threads", "4", "GroupChainCrashIndProof.tla"], cwd=d, capture_output=True, text=True, timeout=600)
+        m = [l for l in (p.stdout + p.stderr).splitlines() if "obligations" in l]
+        out["tlaps_crash_level"] = m[-1].strip() if m else "no summary (exit %d)" % p.returncode
+        out["tlaps_crash_level_proved"] = bool(m) and "All" in m[-1] and "proved" in m[-1]
+    except Exception as e:   # noqa
+        out["tlaps_crash_level"] = "not run: %s" % e
+        out["tlaps_crash_level_proved"] = False
     if thorough:
-        def apa(args):
+        def apa(args, mod="GroupChainInd_apalache.tla"):
             try:
-                p = subprocess.run(["apalache-mc", "check"] + args + ["GroupChainInd_apalache.tla"], cwd=d,
+                p = subprocess.run(["apalache-mc", "check"] + args + [mod], cwd=d,
                                    capture_output=True, text=True, timeout=900)
                 return "NoError" if "The outcome is: NoError" in p.stdout else ("Error" if "The outcome is: Error" in p.stdout else "unknown")
             except Exception as e:   # noqa
@@ -70,6 +80,10 @@ def design_proof(ctx, thorough):
         out["apalache_step"] = apa(["--init=IndInit", "--inv=IndInv", "--length=1"])
         out["apalache_implied"] = apa(["--init=IndInit", "--inv=Implied", "--length=0"])
         out["apalache_pre_repair_remove_refuted"] = apa(["--init=IndInit", "--next=NextAsCoded", "--inv=IndInv", "--length=1"]) == "Error"
+        cm = "GroupChainCrashInd_apalache.tla"
+        out["apalache_crash_level_init"] = apa(["--init=Init", "--inv=IndInv", "--length=0"], cm)
+        out["apalache_crash_level_step"] = apa(["--init=IndInit", "--inv=IndInv", "--length=1"], cm)
+        out["apalache_separate_writes_refuted"] = apa(["--init=IndInit", "--next=NextUnbatched", "--inv=IndInv", "--length=1"], cm) == "Error"
     log("design proof: %s" % out)
     return out
 
